@@ -16,7 +16,7 @@ import json
 import logging
 import posixpath
 import time
-from typing import Dict, Set
+from typing import Dict, Optional, Set
 
 from .file_manager import FileManager
 from .metadata_manager import MetadataManager
@@ -218,19 +218,26 @@ class GarbageCollector:
             basename = norm_marker.rsplit("/", 1)[-1]
             if not basename.endswith(".inflight"):
                 continue
+            data_rel: Optional[str]
             try:
                 data_rel = self._marker_target(norm_marker, basename)
-            except _MarkerUnreadable:
+            except _MarkerUnreadable as e:
                 # The marker exists but its payload could not be read, so which
-                # file it protects is unknown. Keep protection in force for
-                # every location a file of that name can live in.
-                name = basename[: -len(".inflight")]
-                protected.add(f"data/{name}")
-                protected.add(f"{self.file_manager.manifests_path}/{name}")
-                continue
+                # file it protects is unknown. Guessing from the marker's NAME
+                # covered only 'data/<name>' and 'manifests/<name>' - a file in
+                # a sub-directory ('data/p=2/x.parquet') lost its protection.
+                # A live transaction's file must not be deleted on a guess:
+                # fail closed. (An abandoned marker only needs removing.)
+                if age_ok:
+                    raise GarbageCollectionAborted(
+                        f"Aborting GC: in-flight marker {norm_marker} cannot be read ({e}); "
+                        f"which file it protects is unknown. Nothing was deleted."
+                    ) from e
+                data_rel = None
 
             if age_ok:
-                protected.add(data_rel)
+                if data_rel is not None:
+                    protected.add(data_rel)
             else:
                 logger.warning(
                     f"Removing abandoned in-flight marker {norm_marker} "
@@ -241,11 +248,12 @@ class GarbageCollector:
                 except Exception as e:
                     logger.warning(f"Failed to delete stale marker {norm_marker}: {e}")
                     # Could not remove the marker -> keep protecting its file
-                    protected.add(data_rel)
+                    if data_rel is not None:
+                        protected.add(data_rel)
 
         return protected
 
-    def _marker_target(self, marker_path: str, basename: str) -> str:
+    def _marker_target(self, marker_path: str, basename: str) -> Optional[str]:
         """Resolve which file a marker protects.
 
         The marker's payload names the protected path explicitly (it may be a
@@ -258,16 +266,18 @@ class GarbageCollector:
             raw = self.storage.read_file(marker_path)
         except FileNotFoundError:
             # Marker vanished since it was listed: its transaction finished.
-            return fallback
+            return None
         except Exception as e:
             raise _MarkerUnreadable(str(e)) from e
+        if not raw.strip():
+            return fallback  # legacy marker without payload: name convention
         try:
             payload = json.loads(raw.decode("utf-8"))
             target = payload.get("file_path")
-        except Exception:
-            return fallback
+        except Exception as e:
+            raise _MarkerUnreadable(f"unparseable payload: {e}") from e
         if not isinstance(target, str) or not target:
-            return fallback
+            raise _MarkerUnreadable("payload names no file_path")
         return self._normalize_path(target)
 
     def _gc_prefix(self, prefix: str, reachable_set: Set[str], grace_period_ms: int) -> int:
